@@ -178,7 +178,8 @@ def summarize(tier: str, seed: int, merged: dict) -> dict:
         "rule": (
             f"6 monotonic terms x all ordered parameter pairs over {G.positions(tier, seed)} (both directions; Sigmoid "
             f"slopes of both signs) x heights {G.HEIGHTS} x y in {{h*i/N}} U {{2^-1000h, 2^-52h, h/2 +-3 ulps, "
-            "h(1-2^-53), seed-phased lattice}}; every case is non-trivial (0 < y < h)"
+            "h(1-2^-53), seed-phased lattice}}; float64, float32 and float16 degree arrays; far-from-origin parameter sets; wrapper terms "
+            "(Activated, Aggregated) and the non-monotonic terms must refuse; every case is non-trivial (0 < y < h)"
         ),
         "exhaustive": True,
         "vacuity_errors": vac,
